@@ -94,14 +94,16 @@ PROPS = {
         "title": "Status helpers and error mapping",
         "design_ref": "DESIGN.md section 4 (C20)",
         "technique": "complete (loop-free, full-domain) Kani harnesses on the real crate: one generated per status-named constructor, "
-                     "one per error-mapping table; Verus for the close-on-5xx computation in write_response (C05 unit)",
+                     "one per error-mapping table; Verus for 'every 5xx response that is sent is marked connection: close': write_response computes "
+                     "close = 500..=599 (conn unit), write_http_response emits the field iff close (respwrite unit), theorem thm_5xx_marked_close",
         "level_text": "Bit-precise proof by CBMC over complete harnesses: every `fn NAME_DDD` constructor found in src/response.rs yields kind "
                       "Normal and code DDD (harnesses generated from the names in the working tree, so the set is exhaustive by construction); "
                       "every HttpError variant maps to its documented status with body exactly the kind name / the fixed 413 text / the fixed "
-                      "500 text for arbitrary payload strings; is_1xx..is_5xx agree with the numeric class for all 65536 codes.",
-        "level_note": "Kani/CBMC trusted; payload strings are 0..2 arbitrary chars (the mapping never inspects them); that "
-                      "write_http_response emits `connection: close` iff asked is not covered (format!-built head).",
-        "verus": [],
+                      "500 text for arbitrary payload strings; is_1xx..is_5xx agree with the numeric class for all 65536 codes. Deductive "
+                      "(Verus, unbounded): a 5xx response sent through HttpConn::write_response goes out with the field `connection: close` "
+                      "right after the status line / content-type, and the write side is shut down after it.",
+        "level_note": "Kani/CBMC trusted; payload strings are 0..2 arbitrary chars (the mapping never inspects them).",
+        "verus": ["conn", "respwrite"],
         "kani": ["c20"],
         "witness": "c20",
         "assumptions": [
@@ -109,7 +111,6 @@ PROPS = {
             "payload strings of the three payload-carrying variants range over 0..=2 arbitrary Unicode scalar values; the mapping code never reads them",
         ],
         "not_covered": [
-            "serialisation of the mapped response (`connection: close` header) -- write_http_response builds its head with format!/write!",
             "HttpError::is_server_error classifies TimerThreadNotStarted as not-a-server-error although it maps to 500 (observation, outside the property statement)",
         ],
     },
@@ -189,17 +190,17 @@ PROPS = {
                       "from the body kind; 100-continue is sent only while a response is owed and automatically before a body announced with "
                       "Expect; interim responses keep the response owed; a final response moves to None and cannot be sent twice; 5xx and "
                       "partially failed writes shut the write side down; nothing is written after shutdown.",
-        "level_note": "Assumed at this level: write_http_response (writes ser(resp, close) or a prefix, counter in step), read_http_request "
+        "level_note": "write_http_response is used through its contract, proved on the real function in unit respwrite (run with this check). Assumed at this level: read_http_request "
                       "(never writes), TcpStream / Chain / FixedBuf stand-ins, the poll-based AsyncWrite impl of AsyncWriteCounter (its "
                       "poll_write is discharged by a complete Kani harness). The body readers are the real functions, re-verified in this unit. "
                       "Not covered: that the peer observes the bytes (kernel), cancellation, that a body read consumes exactly len bytes of "
                       "*this* connection (proved over the reader handed to the body functions, C09).",
-        "verus": ["conn"],
+        "verus": ["conn", "respwrite"],
         "verus_thorough": [],
         "kani": ["c05"],
         "witness": ["cconn"],
         "assumptions": [
-            "assumed contract: write_http_response(writer, resp, close) appends ser(resp, close) on Ok, a prefix of it on Err, and keeps a counting wrapper's counter in step (w_kept)",
+            "write_http_response's contract (write_post: ser(resp, close) on Ok, a prefix on Err, refusal before any byte, counter in step) is proved on the real function in unit respwrite and used here through use_contract",
             "assumed contract: read_http_request never writes to the stream it reads from (kept(reader))",
             "assumed contracts: async_net::TcpStream as reader and writer; TcpStream::shutdown(&self) writes nothing; futures-lite Chain; FixedBuf",
             "assumed at Verus level: AsyncWriteCounter's AsyncWrite impl forwards to the inner writer and counts accepted bytes (poll_write discharged by Kani harness c05_counter_poll_write)",
@@ -222,15 +223,16 @@ PROPS = {
                       "the write side shut down, nothing owed, or the response still owed and at most one complete 100-continue on the wire; the "
                       "error branch of handle_http_conn then writes nothing or a prefix of the one serialisation of a Normal 400/413/431/500/505 "
                       "response and always leaves the write side shut down.",
-        "level_note": "'the one correct serialisation' is the uninterpreted ser(resp, close) of the assumed write_http_response contract (its head is "
-                      "built with format!, outside Verus); body-file faults (missing / short file) are not covered deductively. In handle_http_conn the "
+        "level_note": "'the one correct serialisation' is ser(resp, close) of unit respwrite, proved on the real write_http_response: body sources "
+                      "that cannot be opened, fail while read, or deliver fewer bytes than declared all end in Err with a prefix written "
+                      "(thm_failure_leaves_prefix, thm_short_body_is_error). In handle_http_conn the "
                       "handler future is replaced by its output (rule D4), println! is dropped (rule R8) and loop termination is not claimed.",
-        "verus": ["conn", "copy", "chunked"],
+        "verus": ["conn", "respwrite", "copy", "chunked"],
         "verus_thorough": [],
         "kani": ["c05"],
         "witness": ["c08", "cconn"],
         "assumptions": ["as C05", "assumed write_all contract: on Err a prefix of the slice was appended"],
-        "not_covered": ["body source faults (file missing / unreadable / shorter than declared) -- bounded stand-ins c08 / cconn only"],
+        "not_covered": ["the file system itself (a body file's content is whatever its reader delivers: assumed reader contract); connection-level fault injection is bounded (c08 / cconn)"],
     },
     "C01": {
         "title": "Request reading is total (framing and fragmentation part)",
@@ -324,27 +326,39 @@ PROPS = {
         ],
     },
     "C06": {
-        "title": "Response serialisation (duplicate guards, copy and framing-length part)",
-        "design_ref": "DESIGN.md section 4 (C06)",
-        "technique": "Verus on let-regions of write_http_response (the three duplicate-field guards, from the proved HeaderList lookups), on "
-                     "ResponseBody::len / is_empty, copy_async and copy_chunked_async; bounded stand-in c06 for the format!-built head",
-        "level_text": "Deductive, unbounded: a response carrying one or more content-type (when a type is set) / content-length / "
-                      "transfer-encoding fields of its own is refused by the guard statements before any byte is written; ResponseBody::len "
-                      "is the number of body bytes for in-memory variants, the declared length for file variants and None exactly for event "
-                      "streams; a known-length body is copied byte for byte with the count returned (copy_async), an unknown-length body is "
-                      "sent in valid chunked coding (C07). Bounded (never counted as proved): status line, automatic fields, field order and "
-                      "parse-back, via the real write_http_response into a short-writing writer and an independent parser.",
-        "level_note": "write_http_response builds its head with format!/write! (outside both verifiers): the head clauses are exercised only by "
-                      "the bounded stand-in; the guard regions are statements copied verbatim into wrapper functions.",
-        "verus": ["respguard", "copy", "chunked"],
+        "title": "Response serialisation: the emitted bytes are the one serialisation of the response",
+        "design_ref": "DESIGN.md section 3 (C06)",
+        "technique": "Verus on the whole real write_http_response (format!/write! expanded piece by piece by rule R9) against a concrete "
+                     "specification ser(resp, close) = head ++ framed body over the writer / reader event model; copy_async and "
+                     "copy_chunked_async used through their proved contracts (use_contract); the duplicate-guard let-regions and "
+                     "ResponseBody::len / is_empty as before; theorems over the contract; bounded stand-in c06 for the parse-back",
+        "level_text": "Deductive, unbounded, for every normal response, every body source and every pattern of partial socket writes the "
+                      "writer contract allows: write_http_response writes exactly status line (HTTP/1.1 SP 3-digit code SP reason CRLF) ++ "
+                      "automatic fields (content-type iff a type is set, connection: close iff closing, then exactly one of content-length = "
+                      "decimal body length and transfer-encoding: chunked, by the body source alone) ++ the response's own fields in the "
+                      "order added (name: value CRLF, value as ISO-8859-1) ++ CRLF ++ the body (exactly n bytes for a declared length n, "
+                      "valid chunked coding otherwise, C07); on any failure a prefix of that; a non-normal response or one that would "
+                      "duplicate an automatic field is refused with the specific error before any byte is written; a known-length body that "
+                      "delivers fewer bytes than declared is never reported as sent.",
+        "level_note": "Assumed: std's formatting of `{}` placeholders is concatenation of the literal pieces and the arguments' Display output "
+                      "(decimal for integers, the text for strings); reason_phrase / ContentType::as_str are functions of their argument (their "
+                      "texts are uninterpreted); what a body source delivers is a function of the body value (files do not change while sent); "
+                      "the statement converting a field value to ISO-8859-1 is replaced by a stand-in keyed to its exact tokens (rule S1). "
+                      "That an independent HTTP parser recovers code, fields and body from those bytes (no CR/LF in names and values, token "
+                      "names) is checked only by the bounded stand-in c06.",
+        "verus": ["respwrite", "respguard", "copy", "chunked"],
         "verus_thorough": [],
         "kani": [],
         "witness": "c06",
         "assumptions": ["as C14 for the HeaderList lookups", "as C07 / C09 for the I/O contracts",
-                        "the guard regions are found by the header-name literal they contain (restructuring gives UNDECIDED and the bounded stand-in decides)"],
-        "not_covered": ["status line / reason phrase / automatic field emission and ordering (format!, write!)", "file and event-stream body sources",
-                        "that `num_copied != body_len` is reported (short body file) -- see C08 not_covered"],
+                        "assumed meaning of format!/write! with `{}` placeholders (rule R9): literal pieces and Display outputs concatenated in order; Display of u16/u64 is the decimal numeral, of &str / AsciiString the text",
+                        "assumed: BodyAsyncReader delivers a prefix of body_events(body); in-memory bodies deliver their bytes then end of stream; streams shorter than 2^64-3 bytes",
+                        "assumed: derive(PartialEq) on ContentType is structural equality; Vec::extend(b\"..\") == extend_from_slice (rule R10)",
+                        "rule S1 stand-ins: extend_latin1 for the chars().map(..) statement, ek_unexpected_eof() for the opaque ErrorKind constructor"],
+        "not_covered": ["parse-back by an independent HTTP parser (bounded stand-in c06 only)", "the texts of reason phrases and content types",
+                        "BodyAsyncReader / EventReceiver internals (assumed reader contract)"],
     },
+
     "C02": {
         "title": "Parsed head is faithful to the bytes sent (grammar part)",
         "design_ref": "DESIGN.md section 4 (C02)",
